@@ -114,7 +114,7 @@ def run_bounded(chk):
             _, (cx, cy), _, _, _ = oracle.polygon_measures_2d([(float(a), float(b)) for a, b in P])
             c = (float(cx), float(cy))
             size = max(math.dist(c, p) for p in P)
-            angles = np.array(angle_set(P, c, chk.tier))
+            angles = np.array(angle_set(P, c, chk.bounded_tier))
             v3 = [[x, y, 0.0] for x, y in P]
             for r in (None, 0.0, 1e-3 * size, 0.1 * size, size, 10 * size):
                 n_cases += 1
@@ -138,7 +138,7 @@ def run_bounded(chk):
                                    "exact_distance_from_centroid": worst[2]}))
     for cls, args in (("Circle", (1.7,)), ("Ellipse", (1.2, 2.9)), ("Ellipse", (3.0, 0.4))):
         shape = getattr(cox.shapes, cls)(*args, (2.0, -1.0, 0.0))
-        angles = np.array(angle_set([], (0, 0), chk.tier))
+        angles = np.array(angle_set([], (0, 0), chk.bounded_tier))
         got = np.asarray(shape.distance_to_surface(angles), float)
         n_eval += len(angles)
         n_cases += 1
